@@ -64,6 +64,17 @@ def build(seed, prop):
                {"k": "assert", "term": T("!", (t2,), "Bool", n2)}, {"k": "assert", "term": T("!", (T("not", (t,)),), "Bool", n3)},
                {"k": "check-sat"}, {"k": "get-unsat-core"},
                {"k": "pop", "n": 1}] + out
+    # minimal cores: the unnamed assertions may be unsatisfiable on their own while the proof found first runs through one
+    # named assertion; the minimal core is then empty (in a level of its own at the start of the script)
+    if minimal and rng.random() < 0.3:
+        p_, q_ = g.tg.boolean(0), g.tg.boolean(1)
+        if to_smt(p_, "ref") != to_smt(q_, "ref"):
+            n1 = g.tg.fresh_name()
+            tpl = [{"k": "assert", "term": T("!", (p_,), "Bool", n1)}, {"k": "assert", "term": T("not", (p_,))},
+                   {"k": "assert", "term": q_}, {"k": "assert", "term": T("not", (q_,))}]
+            if rng.random() < 0.5:
+                tpl = tpl[2:] + tpl[:2]
+            out = [{"k": "push", "n": 1}] + tpl + [{"k": "check-sat"}, {"k": "get-unsat-core"}, {"k": "pop", "n": 1}] + out
     return cmds + out
 
 
